@@ -111,7 +111,7 @@ func genLemmas(w *World, filter func(l *Lemma) bool) ([]*Obligation, error) {
 				for _, h := range l.Hyps {
 					h2 = append(h2, ev.boolOf(ev.Eval(h.E, env2)))
 				}
-				vc.assume(mkImp(mkAnd(h2...), ev.boolOf(ev.Eval(l.Goal.E, env2))))
+				vc.assumeAlways(mkImp(mkAnd(h2...), ev.boolOf(ev.Eval(l.Goal.E, env2))))
 			}
 			if l.Goal == nil {
 				evalErrOut = fmt.Errorf("lemma %s has no holds clause", l.Name)
@@ -130,7 +130,11 @@ func genLemmas(w *World, filter func(l *Lemma) bool) ([]*Obligation, error) {
 					o.Extra = append(o.Extra, w.exportedInstances(d[0], d[1])...)
 				}
 			}
-			o.Extra = append(o.Extra, w.foldInstances(foldApps, 2)...)
+			fd := 2
+			if l.Depth > fd {
+				fd = l.Depth
+			}
+			o.Extra = append(o.Extra, w.foldInstances(foldApps, fd)...)
 			if indObl != nil {
 				indObl.Extra = o.Extra
 				out = append(out, indObl)
